@@ -472,3 +472,88 @@ def _copy_once(a, g, same, sg, dg):
     shutil.rmtree(d, ignore_errors=True)
     out.update(returned=None, violations=viol, violates_contract=bool(viol))
     return out
+
+
+@custom("cooler.create._create:_rename_chroms")
+def _replay_rename(inputs, ghost=None):
+    """a real cooler whose chromosome names follow the counter-model (made distinct / non-empty, keeping which names
+    are equal), renamed with the model's map; checks the property on the file afterwards"""
+    import os
+    import shutil
+    import tempfile
+    import h5py
+    import numpy as np
+    import pandas as pd
+    import cooler
+    from cooler.create._create import _rename_chroms
+    g = {k: conv(v) for k, v in (ghost or {}).items()}
+    old = [str(x) for x in list(g.get("old") or [])][:6]
+    has = [bool(x) for x in list(g.get("has_of_old") or [])][:len(old)]
+    to = [str(x) for x in list(g.get("to_of_old") or [])][:len(old)]
+    if len(old) == 0:
+        old, has, to = ["a", "b"], [True, True], ["b", "a"]
+    # sanitise: printable, non-empty, distinct old names; equal strings stay equal across old/to
+    table = {}
+
+    def san(x):
+        if x not in table:
+            ok = x.isalnum() and x.isascii() and x not in table.values()
+            table[x] = x if ok else f"n{len(table)}"
+        return table[x]
+    names, seen = [], set()
+    for x in old:
+        y = san(x)
+        while y in seen:
+            y = y + "x"
+        seen.add(y)
+        names.append(y)
+    rmap = {names[i]: san(to[i]) for i in range(len(names)) if has[i]}
+    expected = [rmap.get(n, n) for n in names]
+    out = {"inputs_used": {"names": names, "rename_dict": rmap, "enum": bool(g.get("enum", True))}}
+    if len(set(expected)) != len(expected):
+        out.update(violations=[], violates_contract=False, note="the map makes two names collide: outside the property")
+        return out
+    d = tempfile.mkdtemp(prefix="pyvc_ren_")
+    p = os.path.join(d, "r.cool")
+    bins = pd.DataFrame({"chrom": np.repeat(names, 2), "start": [0, 10] * len(names), "end": [10, 17] * len(names)})
+    n = len(bins)
+    pix = pd.DataFrame({"bin1_id": list(range(n)), "bin2_id": [min(i + 1, n - 1) for i in range(n)], "count": list(range(1, n + 1))})
+    cooler.create_cooler(p, bins, pix)
+    if not g.get("enum", True):
+        with h5py.File(p, "r+") as f:
+            codes = f["bins/chrom"][:].astype("int32")
+            del f["bins/chrom"]
+            f["bins"].create_dataset("chrom", data=codes)
+    c0 = cooler.Cooler(p)
+    before = {nm: c0.matrix(balance=False, sparse=False).fetch(nm) for nm in names}
+    pix0, lens0 = c0.pixels()[:], list(c0.chromsizes.values)
+    raised = None
+    try:
+        with h5py.File(p, "r+") as f:
+            _rename_chroms(f, rmap, {})
+    except Exception as e:
+        raised = e
+    viol = []
+    out["raised"] = None if raised is None else f"{type(raised).__name__}: {raised}"
+    if raised is not None:
+        viol.append(f"renaming raised {out['raised']}")
+    else:
+        c1 = cooler.Cooler(p)
+        if list(c1.chromnames) != expected:
+            viol.append(f"chromosome names {list(c1.chromnames)} != {expected}")
+        if list(c1.chromsizes.values) != lens0:
+            viol.append("chromosome lengths changed")
+        got = [str(x) for x in c1.bins()[:]["chrom"]]
+        if got != [x for e in expected for x in (e, e)]:
+            viol.append(f"bin table labels {got}")
+        if not c1.pixels()[:].equals(pix0):
+            viol.append("pixels changed")
+        for o, nnm in zip(names, expected):
+            try:
+                if not np.array_equal(c1.matrix(balance=False, sparse=False).fetch(nnm), before[o]):
+                    viol.append(f"region {nnm} does not return what {o} returned")
+            except Exception as e:
+                viol.append(f"fetch({nnm}) raised {type(e).__name__}: {e}")
+    shutil.rmtree(d, ignore_errors=True)
+    out.update(returned=None, violations=viol, violates_contract=bool(viol))
+    return out
